@@ -109,6 +109,13 @@ def replay(recs):
             mk = lambda: g.Circle(g.Point(*c), rad)  # noqa: E731
             chk("Circle", st, case, r["M"], mk, lambda x: mcls(x, r["M"]))
             chk("Circle/center-scaled-representative", st, case, r["M"], lambda: g.Circle(P([3 * c[0], 3 * c[1], 3]), rad), lambda x: mcls(x, r["M"]))
+            if q == 1:
+                chk("Circle/integer-arguments", st, case, r["M"], lambda: g.Circle(g.Point(np.array(c + [1])), int(p)), lambda x: mcls(x, r["M"]))
+                if p % 2 == 0:
+                    D = np.diag([2, 2, 1])
+                    M2 = (D @ np.array(r["M"]) @ D).tolist()
+                    chk("Circle/half-size/integer-representative-w=2", st, {"center": c + [2], "radius": p // 2}, M2,
+                        lambda: g.Circle(g.Point(np.array(c + [2])), int(p // 2)), lambda x: mcls(x, M2))
             chk("Circle.contains", st, case, "exactly the points of the locus",
                 lambda: (np.asarray(mk().contains(g.PointCollection(np.array(r["on"])))) if r["on"] else np.array([True]),
                          np.asarray(mk().contains(g.PointCollection(np.array(r["off"])))) if r["off"] else np.array([False])),
@@ -146,6 +153,16 @@ def replay(recs):
             mk = lambda: g.Sphere(g.Point(*c), rad)  # noqa: E731
             chk("Sphere", st, case, r["M"], mk, lambda x: mcls(x, r["M"]))
             chk("Sphere/center-scaled-representative", st, case, r["M"], lambda: g.Sphere(P([-2 * x for x in c] + [-2]), rad), lambda x: mcls(x, r["M"]))
+            if q == 1:
+                # integer radius and integer centre coordinates (no float anywhere in the arguments)
+                chk("Sphere/integer-arguments", st, case, r["M"], lambda: g.Sphere(g.Point(np.array(c + [1])), int(p)), lambda x: mcls(x, r["M"]))
+                if p % 2 == 0:
+                    # the same sphere shrunk by 1/2: centre c/2 given by the integer representative (c, 2), radius p/2;
+                    # its matrix is D M D with D = diag(2, .., 2, 1)
+                    D = np.diag([2] * len(c) + [1])
+                    M2 = (D @ np.array(r["M"]) @ D).tolist()
+                    chk("Sphere/half-size/integer-representative-w=2", st, {"center": c + [2], "radius": p // 2}, M2,
+                        lambda: g.Sphere(g.Point(np.array(c + [2])), int(p // 2)), lambda x: mcls(x, M2))
             chk("Sphere.contains", st, {**case, "p": r["pt"]}, True, lambda: mk().contains(P(r["pt"])), lambda x: bool(x))
             chk("Sphere.contains(off)", st, {**case, "p": c + [1]}, False, lambda: mk().contains(g.Point(*c)), lambda x: not bool(x))
             chk("Sphere.center", st, case, c, lambda: mk().center, lambda x: same_class(x.array, c + [1]))
